@@ -12,6 +12,11 @@
 // compiled by the compiler under test (Node) and by the reference toolchain
 // (specification guard), and validates every observed step against the
 // prediction.
+//
+// VERIF_REPLAY=<dir> re-decides the scenario recorded in <dir>/scenario.json.
+// VERIF_C15_CORRUPT=obs falsifies one observed result (the check must report a
+// violation), =pred falsifies one predicted result (the guard then disagrees
+// and the history is discarded): demonstrations that the binding is not vacuous.
 package c15
 
 import (
@@ -241,8 +246,8 @@ type params struct {
 func makeParams(c *core.Ctx) params {
 	rng := rand.New(rand.NewSource(c.Seed))
 	p := params{Out: "scen", PoolCap: c.Pick(36, 64), ElemCap: c.Pick(4, 6), PairCap: c.Pick(6, 9), L: c.Pick(4, 6),
-		NSim: c.Pick(24, 300), Fams: []string{"pairs", "dump", "sim", "laws"}}
-	for i := 0; i < c.Pick(12, 60); i++ {
+		NSim: c.Pick(24, 600), Fams: []string{"pairs", "dump", "sim", "laws"}}
+	for i := 0; i < c.Pick(12, 100); i++ {
 		v := make([]int, 7)
 		for j := range v {
 			v[j] = rng.Intn(1000000)
@@ -402,18 +407,22 @@ func runAll(c *core.Ctx, pool *gjs.Pool, cat []catEntry, hists map[int][]*hist, 
 		g := groups[gi]
 		prog := renderProgram(cat, g, hists)
 		b := pool.RunBoth(c.Scratch, prog, gjs.Opts{}, 5*time.Minute, true, false)
+		if b.BuildErr == nil && b.NativeErr != "" && strings.Contains(b.NativeErr, "go-build") {
+			// the shared Go build cache was trimmed under the linker (other checks run concurrently): once more
+			b = pool.RunBoth(c.Scratch, prog, gjs.Opts{}, 5*time.Minute, true, false)
+		}
 		if b.BuildErr != nil {
 			if be, ok := b.BuildErr.(*gjs.BuildError); ok && be.Panic {
 				c.Report(core.Case{Keys: []string{"compiler_panic"}, Summary: "compiler internal error on a map program: " + be.Error(), Files: prog.ReplayFiles("prog")})
 			} else {
-				os.WriteFile(filepath.Join(os.TempDir(), "c15_failed_main.go"), []byte(prog.Files["main.go"]), 0o644)
-				c.Infra(fmt.Errorf("gopherjs build failed (program kept in %s): %v", filepath.Join(os.TempDir(), "c15_failed_main.go"), b.BuildErr))
+				os.WriteFile(filepath.Join(c.Scratch, "c15_failed_main.go"), []byte(prog.Files["main.go"]), 0o644)
+				c.Infra(fmt.Errorf("gopherjs build failed (with VERIF_KEEP=1 the program stays in %s): %v", filepath.Join(c.Scratch, "c15_failed_main.go"), b.BuildErr))
 			}
 			return
 		}
 		if b.NativeErr != "" {
-			os.WriteFile(filepath.Join(os.TempDir(), "c15_failed_main.go"), []byte(prog.Files["main.go"]), 0o644)
-			c.Infra(fmt.Errorf("reference toolchain rejected a generated program (kept in %s): %s", filepath.Join(os.TempDir(), "c15_failed_main.go"), tlcx.Tail(b.NativeErr, 20)))
+			os.WriteFile(filepath.Join(c.Scratch, "c15_failed_main.go"), []byte(prog.Files["main.go"]), 0o644)
+			c.Infra(fmt.Errorf("reference toolchain rejected a generated program (with VERIF_KEEP=1 it stays in %s): %s", filepath.Join(c.Scratch, "c15_failed_main.go"), tlcx.Tail(b.NativeErr, 20)))
 			return
 		}
 		if b.Native.End != "exit" {
@@ -536,6 +545,13 @@ func describe(ce *catEntry, h *hist) string {
 	return fmt.Sprintf("map[%s]int32%s, init %s: %s", te, d, h.Init, strings.Join(ops, "; "))
 }
 
+func clip(s string, n int) string {
+	if len(s) > n {
+		return s[:n] + "..."
+	}
+	return s
+}
+
 func report(c *core.Ctx, ce *catEntry, f failure, count int) {
 	one := *f.h
 	one.seq = 0
@@ -547,7 +563,7 @@ func report(c *core.Ctx, ce *catEntry, f failure, count int) {
 	files["observed.txt"] = fmt.Sprintf("step %d: %s\n", f.oc.step, f.oc.got)
 	c.Report(core.Case{Keys: f.keys,
 		Summary: fmt.Sprintf("%s -- step %d (%s): Go/spec = %s, compiled program: %s (%d histories of this key type and class differ)",
-			describe(ce, f.h), f.oc.step+1, f.h.Ops[f.oc.step].Kind, f.oc.want, f.oc.got, count),
+			describe(ce, f.h), f.oc.step+1, f.h.Ops[f.oc.step].Kind, clip(f.oc.want, 400), clip(f.oc.got, 400), count),
 		Files: files})
 }
 
@@ -558,10 +574,6 @@ func replay(c *core.Ctx, pool *gjs.Pool, dir string) {
 		c.Infra(err)
 		return
 	}
-	var sc struct {
-		Cat  catEntry `json:"cat"`
-		Hist string   `json:"hist"`
-	}
 	var raw struct {
 		Cat  catEntry        `json:"cat"`
 		Hist json.RawMessage `json:"hist"`
@@ -570,7 +582,6 @@ func replay(c *core.Ctx, pool *gjs.Pool, dir string) {
 		c.Infra(err)
 		return
 	}
-	sc.Cat, sc.Hist = raw.Cat, string(raw.Hist)
 	var rec struct {
 		Fam  string            `json:"fam"`
 		Init string            `json:"init"`
@@ -581,7 +592,7 @@ func replay(c *core.Ctx, pool *gjs.Pool, dir string) {
 		c.Infra(err)
 		return
 	}
-	h := &hist{Ty: 1, Fam: rec.Fam, Init: rec.Init, Res: rec.Res, Raw: sc.Hist}
+	h := &hist{Ty: 1, Fam: rec.Fam, Init: rec.Init, Res: rec.Res, Raw: string(raw.Hist)}
 	for _, o := range rec.Ops {
 		h.Ops = append(h.Ops, opT{Kind: str(o[0]), Idx: num(o[1]), Val: num(o[2])})
 	}
@@ -589,5 +600,5 @@ func replay(c *core.Ctx, pool *gjs.Pool, dir string) {
 	c.Set("exhaustive", false)
 	c.Set("evaluations", 1)
 	c.Set("checker_cmd", "none (prediction taken from the replay directory)")
-	runAll(c, pool, []catEntry{sc.Cat}, map[int][]*hist{1: {h}}, 1)
+	runAll(c, pool, []catEntry{raw.Cat}, map[int][]*hist{1: {h}}, 1)
 }
